@@ -456,6 +456,18 @@ func (x *FnExec) restoreOwned(st *State, old map[string]Term) {
 
 const sdkIntKey = "cosmossdk.io/math.Int"
 
+// decImmutable: set per function (contract clause dec_values_immutable): the assumption of
+// int_values_immutable is extended to LegacyDec and BigDec values the function holds (callees do
+// not call the *Mut methods on values they were handed).
+var decImmutable bool
+
+func isImmutableNumKey(k string) bool {
+	if k == sdkIntKey {
+		return true
+	}
+	return decImmutable && (k == "cosmossdk.io/math.LegacyDec" || k == "github.com/osmosis-labs/osmosis/osmomath.BigDec")
+}
+
 // intRefs: the *big.Int pointers of the math.Int values inside v (structs and tuples are
 // searched, pointers and slices are not followed).
 func intRefs(v Val, t types.Type, out *[]Term) {
@@ -477,7 +489,7 @@ func intRefs(v Val, t types.Type, out *[]Term) {
 	if !ok || !v.IsComp() || len(v.F) != st.NumFields() {
 		return
 	}
-	if typeKey(t) == sdkIntKey && st.NumFields() == 1 && !v.F[0].IsComp() {
+	if isImmutableNumKey(typeKey(t)) && st.NumFields() == 1 && !v.F[0].IsComp() {
 		*out = append(*out, v.F[0].T)
 		return
 	}
@@ -498,7 +510,7 @@ func intRefOffsets(m *Mem, t types.Type) []int {
 		if !ok {
 			return
 		}
-		if typeKey(t) == sdkIntKey && st.NumFields() == 1 {
+		if isImmutableNumKey(typeKey(t)) && st.NumFields() == 1 {
 			out = append(out, base)
 			return
 		}
@@ -1056,6 +1068,10 @@ func (x *FnExec) run() {
 			}
 		}
 		x.errorf("owns %s: not a pointer or slice parameter", own)
+	}
+	decImmutable = x.con.DecImmutable
+	if x.con.DecImmutable {
+		x.ctx.Note("assumed (dec_values_immutable): callees never mutate the big integer behind a LegacyDec/BigDec value held by this function (no *Mut call on a value they were handed)")
 	}
 	if x.con.IntImmutable {
 		x.ctx.Note("assumed (int_values_immutable): callees never mutate the big integer behind a cosmossdk.io/math.Int value held by this function (the Int API is value-immutable)")
@@ -2055,7 +2071,7 @@ func (x *FnExec) calleeWriteKeys(c *ssa.CallCommon) ([]string, bool) {
 	name := ""
 	if c.IsInvoke() {
 		name = "(" + typeKey(c.Value.Type()) + ")." + c.Method.Name()
-		if x.eng.cs.Funcs[name] == nil && (x.eng.cs.KeeperIfaces[typeKey(c.Value.Type())] || x.eng.isPureDep(name)) {
+		if x.eng.cs.Funcs[name] == nil && (x.eng.cs.KeeperIfaces[typeKey(c.Value.Type())] || isStoreIterator(c.Value.Type()) || x.eng.isPureDep(name)) {
 			return nil, true
 		}
 	} else if f := c.StaticCallee(); f != nil {
